@@ -213,6 +213,7 @@ PROPS = {
         "stages": [
             rapid_stage("cancel", "TestC18", 16, 120, qshards=2, tshards=12, qtimeout=600),
             rapid_stage("cancel-vectors", "TestC18", 12, 60, tags="verif,vectors", tshards=4, qtimeout=600),
+            {"name": "cancel-fixed-vectors", "test": "TestC18Fixed", "tags": "verif,vectors", "quick": {"shards": 1, "timeout": 300}, "thorough": {"shards": 1, "timeout": 600}},
         ],
     },
     "C20": {
@@ -347,3 +348,18 @@ for _k, _v in RULE_ADDENDA_6.items():
     PROPS[_k]["rule"] += "; added after the sixth round: " + _v
 
 PROPS["C17"]["rule"] += "; after the fault series two gated, overlapping fault-free WriteTo calls (this segment and a small other one) must each deliver exactly their own image"
+
+RULE_ADDENDA_7 = {
+    "C02": "id lists made of present ids only (ascending / descending) so that an id carried by two documents precedes other present ids; for re-opened cases a twin file (every stored value's last byte flipped: same shape, other content) is opened right after the first file was closed, the last visit on the old file and the first on the new one being the same document number",
+    "C04": "every other batch is persisted onto a destination reserved beforehand as an empty file; everything the opened segment handed out (field names, terms, values) is read again after its Close; image lengths are steered onto write-buffer boundaries (stage image-lengths)",
+    "C05": "the fixed merge plans of C06 (stage merge-fixed) are also judged by the stored-field / id oracle; every other merge writes onto a destination reserved as an empty file",
+    "C06": "fixed plans with three inputs whose field lists diverge after a common prefix, and with hits carrying more than 127 bytes of locations through a byte-copy merge",
+    "C10": "a deterministic history (history-fixed) builds a batch whose image exceeds 16 MiB and then small non-empty batches on the same pooled builder",
+    "C11": "the stress mix calls Size() concurrently with first-time dictionary loads",
+    "C14": "half of the clustered layouts give every third document a second vector; eligible sets include 'only documents with one vector', also as fixed queries whose query vector is the second vector of an ineligible document; every case ends with a filtered, fully selective query of the wrong dimension",
+    "C16": "15 % of searches are failed by the engine (the handle must survive and other handles be unaffected); the deterministic history fails a search of a second handle, closes it, runs four expiry passes and searches through the first handle",
+    "C17": "under the vectors tag a file reported as complete must hold every surviving vector",
+    "C18": "every engine-operation closure point is tried 3..6 times (the order in which sections are merged varies per call); a deterministic plan (cancel-fixed-vectors) merges three inputs with vectors in one field; a success must hold every surviving vector",
+}
+for _k, _v in RULE_ADDENDA_7.items():
+    PROPS[_k]["rule"] += "; added after the seventh round: " + _v
